@@ -69,7 +69,7 @@ pub fn drain<const N: usize, const P: u32, S: Src>(s: &mut S) {
         chk!(crate::s_mut::dropped_ascending(0, lo, hi - lo), "lifecycle: dropping a drain destroys the remaining drained elements front to back");
     }
     m.remove_range(a, b);
-    if on!(P, C09 | C03) {
+    if on!(P, C09 | C03) && crate::tok::TRACK {
         // un-yielded drained elements destroyed exactly once, everything else untouched
         let mut i = 0;
         while i < len {
@@ -316,4 +316,79 @@ pub fn drain_forget_plain<const N: usize, const P: u32, S: Src>(s: &mut S) {
         chk!(r.is_none() == (before < N), "leaked drain (plain elements): push_back behaves normally afterwards");
         chk!(buf.back().map(|x| x.0) == Some(0x40), "leaked drain (plain elements): the pushed element is at the back");
     }
+}
+
+/// `Drain` through the adaptor-style `Iterator` methods (`nth`, `nth_back`, `count`, `last`): whatever the type
+/// overrides, or the default implementations, must take every skipped element out of the drain and destroy it
+pub fn drain_adaptors<const N: usize, const P: u32, S: Src>(s: &mut S) {
+    let St { mut buf, mut m, len, .. } = build::<N, S>(s);
+    let a = s.usize();
+    let b = s.usize();
+    s.assume(a <= b && b <= len);
+    let (mut lo, mut hi) = (a, b);
+    let mut held = Ids::new();
+    {
+        let mut d = buf.drain(a..b);
+        // one ordinary step first, so that the adaptor starts from a partly consumed drain
+        let pre = s.u8();
+        s.assume(pre < 3);
+        if pre == 1 {
+            if let Some(t) = d.next() {
+                lo += 1;
+                held.push(t.hold());
+            }
+        } else if pre == 2 {
+            if let Some(t) = d.next_back() {
+                hi -= 1;
+                held.push(t.hold());
+            }
+        }
+        let kind = s.u8();
+        s.assume(kind < 4);
+        let skip = s.usize();
+        s.assume(skip <= 2);
+        let avail = hi - lo;
+        cov!(kind == 0 && skip > 0 && skip < avail, "drain.nth(k) skipping some but not all remaining elements");
+        match kind {
+            0 | 1 => {
+                let t = if kind == 0 { d.nth(skip) } else { d.nth_back(skip) };
+                if skip < avail {
+                    let want = if kind == 0 { lo + skip } else { hi - 1 - skip };
+                    chk!(t.is_some() && t.as_ref().unwrap().0 as usize == want, "drain.nth(k) / nth_back(k) yields the k-th remaining element from that end");
+                    if kind == 0 {
+                        lo += skip + 1;
+                    } else {
+                        hi -= skip + 1;
+                    }
+                    chk!(d.len() == hi - lo, "drain: len() is exact after nth / nth_back");
+                } else {
+                    chk!(t.is_none(), "drain.nth(k) / nth_back(k) is None when fewer than k+1 elements remain");
+                }
+                held.hold(t);
+                drop(d);
+            }
+            2 => {
+                let c = d.count();
+                chk!(c == avail, "drain.count() is the number of elements not yet produced");
+            }
+            _ => {
+                let l = d.last();
+                chk!(l.is_some() == (avail > 0), "drain.last() is Some exactly when elements remain");
+                if let Some(t) = l {
+                    chk!(t.0 as usize == hi - 1, "drain.last() is the last element of the range not yet produced");
+                    held.push(t.hold());
+                }
+            }
+        }
+    }
+    m.remove_range(a, b);
+    if on!(P, C09 | C03) && crate::tok::TRACK {
+        let mut i = 0;
+        while i < len {
+            let expect = if i >= a && i < b && held.count(i as u8) == 0 { 1 } else { 0 };
+            chk!(drops(i as u8) == expect, "drain adaptors: every drained element not handed to the caller is destroyed exactly once");
+            i += 1;
+        }
+    }
+    finish::<N, P>(buf, &m, &held, created(len));
 }
